@@ -923,6 +923,14 @@ def r09_9(ctx):
                 ctx.ob(f"{fmt}:{role}:gives-up:size-test", True, sup.site(g), "size-dependent give-up: judged by R09.8", trivial=True)
                 continue
             why = GIVE_UP_EQUIVALENT.get((fmt, role, desc[0], desc[1]))
+            if why is None and role == "stream" and desc[0] == "std::str::Utf8Error::error_len" and desc[1].startswith("is_some") and desc[1].endswith("true"):
+                # a *definite* UTF-8 error in what has been captured so far (`error_len()` is Some: an invalid sequence,
+                # not one cut short by the end of the block) makes the whole input invalid UTF-8 whatever follows. If the
+                # in-memory arm's text goes through a UTF-8 gate that answers 'no match' as well, both arms agree.
+                mem_edges = arms.get("mem", [])
+                gate = [n_ for n_, _, t_ in sup.calls() if (fn_of(t_) or {}).get("def") in ("std::str::from_utf8", "core::str::from_utf8") and any(n_ in ps.reach_from_edge(e[0], e[1], e[2]) for e in mem_edges)]
+                if gate:
+                    why = "a definite UTF-8 error in the captured bytes (error_len() is Some) fails the UTF-8 gate the in-memory arm passes through as well, whatever follows in the stream"
             ctx.ob(f"{fmt}:{role}:gives-up:{desc[0].rsplit('::', 1)[-1]}:{desc[1]}", why is not None, sup.site(g),
                    f"reviewed equivalent: {why}" if why else f"the {fmt} trial answers 'no match' for {'in-memory' if role == 'mem' else 'reader'} input only, when `{desc[0]}` yields {desc[1]}: the same bytes are judged differently from a {'reader' if role == 'mem' else 'slice'}")
     ctx.ob("arm-specific-give-ups", True, "lib", f"{n_sites} arm-specific early answer(s) classified", trivial=True)
